@@ -311,6 +311,9 @@ def _comparison_only(c):
     """the argument occurs only as a direct operand (possibly by reference) of a comparison or Range::contains"""
     def is_arg(e):
         e = kit.strip_refs(e)
+        # a widening of the 16-bit address (`address as i32`, `i32::from(address)`) keeps its value and its order
+        while e[0] == "cast" and str(e[1]) == "u16" and str(e[2]) in ("i32", "u32", "i64", "u64", "usize", "isize", "i128", "u128"):
+            e = kit.strip_refs(e[3])
         return e[0] == "arg"
     if c[0] == "bin" and c[1] in ("Lt", "Le", "Gt", "Ge", "Eq", "Ne"):
         sides = [c[2], c[3]]
